@@ -120,10 +120,9 @@ impl Proxy {
     pub fn new(rng: &mut Rng, kind: Kind) -> Proxy {
         let h = rng.range(1, 5000);
         let t = rng.range(1_500_000_000, 1_900_000_000);
-        Proxy {
-            w: World::new(h, t),
-            kind,
-        }
+        let mut w = World::new(h, t);
+        w.block.time = w.block.time.plus_nanos(rng.below(1_000_000_000));
+        Proxy { w, kind }
     }
 
     pub fn instantiate(&mut self, admins: Vec<String>, mutable: bool) -> Res<Response> {
@@ -294,7 +293,8 @@ fn gen_coins(rng: &mut Rng, anchors: &BTreeMap<String, u128>) -> Vec<Coin> {
     let mut v = vec![];
     for _ in 0..n {
         let d = if rng.chance(1, 12) {
-            "unknown".to_string()
+            // unknown or look-alike denominations (case variant, prefix, suffix of a granted one)
+            rng.pick(&["unknown", "UATOM", "uato", "uatomx", "ubtc ", "Ueth"]).to_string()
         } else if !anchors.is_empty() && rng.chance(2, 3) {
             let ks: Vec<&String> = anchors.keys().collect();
             (*rng.pick(&ks)).clone()
